@@ -1,7 +1,7 @@
 """Bounded tier (C32, labelled bounded): feed-forward models are solved by one ordered pass.
 
 Domain (exhaustive): every digraph on n <= N nodes (no self loops) x every declared order of the subsystems
-x {group at top level, group nested in a parent} ; each model is set up and run TWICE (setup, run, setup, run).
+x {group at top level, group nested in a parent, nested in a parent that also has auto_order} ; each model is set up and run TWICE (setup, run, setup, run).
 Each node is an ExecComp  y = c_i + sum_j w_ij * x_j  with one input per incoming edge (explicit connections).
 Oracle from the statement, after each run:
   * execution order (the group's subsystem order): for every edge u -> v between different strongly connected
@@ -43,6 +43,9 @@ def check_case(args):
     p = om.Problem(reports=False)
     g = p.model.add_subsystem('sub', om.Group()) if nested else p.model
     g.options['auto_order'] = True
+    if nested == 2:
+        # the parent orders its own children automatically too (and has nothing to reorder at its level)
+        p.model.options['auto_order'] = True
     for i in order:
         ins = [u for (u, v) in edges if v == i]
         expr = 'y = %d' % (i + 1) + ''.join(' + %d * x%d' % (u + 2, u) for u in ins)
@@ -105,7 +108,7 @@ def main(tier):
         for mask in range(2 ** len(pairs)):
             edges = tuple(p for k, p in enumerate(pairs) if mask >> k & 1)
             for order in itertools.permutations(range(n)):
-                for nested in (False, True):
+                for nested in (False, True, 2):
                     cases.append((n, edges, order, nested))
     extra = 0
     if tier == 'quick':
